@@ -10,6 +10,7 @@ import SmrtVerif.Model.Microstructure
 import SmrtVerif.Model.Interface
 import SmrtVerif.Proofs.RealTransc
 import SmrtVerif.Proofs.Split
+import SmrtVerif.Proofs.Romberg
 import Mathlib.Tactic.Ring
 import Mathlib.Tactic.Linarith
 import Mathlib.Tactic.FieldSimp
@@ -214,6 +215,58 @@ theorem unified_sticky_hard_spheres_similarity (pi f lp K k a : ℝ) (ha : 0 < a
   split
   · field_simp
   · field_simp
+
+theorem l1 : (1.0 : ℝ) = 1 := by norm_num
+
+theorem cx_ext {a b : Cx ℝ} (h1 : a.re = b.re) (h2 : a.im = b.im) : a = b := by
+  cases a; cases b; simp only at h1 h2; subst h1; subst h2; rfl
+
+open Smrt.Em in
+/-- **sce_A2_local_similarity**: the numerically integrated second-order term of the short-range strong-contrast expansions
+    (`compute_A2_local`: 4097-point Romberg integral of `r·acf(r)` up to 8 slopes-at-origin, plus `i/(4π) ft(0) Q`) is unchanged when the
+    slope-at-origin length is multiplied by `a`, the spectrum at the origin by `a³` and the wavenumber divided by `a`, the autocorrelation
+    function taking the same values at corresponding grid points - whatever those values are (uses `romb_weights` for `k = 12`) -/
+theorem sce_A2_local_similarity (pi : ℝ) (g : Nat → ℝ) (ft0 invSlope a : ℝ) (Q : Cx ℝ) (ha : a ≠ 0) :
+    sceA2Local pi g (a ^ 3 * ft0) (a * invSlope) (Cx.smul (1 / a) Q) = sceA2Local pi g ft0 invSlope Q := by
+  unfold sceA2Local
+  simp only [l8, l4, l2, l1]
+  have hstep : (8 : ℝ) * (a * invSlope) / ((4096 : Nat) : ℝ) = a * (8 * invSlope / ((4096 : Nat) : ℝ)) := by ring
+  rw [hstep]
+  have hy : (fun i : Nat => ((i : ℝ) * (a * (8 * invSlope / ((4096 : Nat) : ℝ)))) * g i)
+      = fun i : Nat => a * (((i : ℝ) * (8 * invSlope / ((4096 : Nat) : ℝ))) * g i) := by
+    funext i; ring
+  rw [hy, romb_smul, romb_weights 12 _ (a * _), romb_weights 12 _ (8 * invSlope / ((4096 : Nat) : ℝ))]
+  generalize (∑ n ∈ Finset.range (2 ^ 12 + 1), ((wR 12 12 12 n : ℚ) : ℝ) * (((n : ℝ) * (8 * invSlope / ((4096 : Nat) : ℝ))) * g n)) = S
+  generalize (8 * invSlope / ((4096 : Nat) : ℝ)) = h
+  rcases Q with ⟨x, y⟩
+  apply cx_ext
+  · show (Cx.mul (Cx.smul 2 (Cx.mul (Cx.smul (1 / a) ⟨x, y⟩) (Cx.smul (1 / a) ⟨x, y⟩)))
+        (Cx.add ⟨a * (a * h * S), 0⟩ (Cx.smul (a ^ 3 * ft0) (Cx.mul ⟨0, 1 / (4 * pi)⟩ (Cx.smul (1 / a) ⟨x, y⟩))))).re
+      = (Cx.mul (Cx.smul 2 (Cx.mul ⟨x, y⟩ ⟨x, y⟩)) (Cx.add ⟨h * S, 0⟩ (Cx.smul ft0 (Cx.mul ⟨0, 1 / (4 * pi)⟩ ⟨x, y⟩)))).re
+    simp only [Cx.mul, Cx.smul, Cx.add]
+    field_simp
+    ring
+  · show (Cx.mul (Cx.smul 2 (Cx.mul (Cx.smul (1 / a) ⟨x, y⟩) (Cx.smul (1 / a) ⟨x, y⟩)))
+        (Cx.add ⟨a * (a * h * S), 0⟩ (Cx.smul (a ^ 3 * ft0) (Cx.mul ⟨0, 1 / (4 * pi)⟩ (Cx.smul (1 / a) ⟨x, y⟩))))).im
+      = (Cx.mul (Cx.smul 2 (Cx.mul ⟨x, y⟩ ⟨x, y⟩)) (Cx.add ⟨h * S, 0⟩ (Cx.smul ft0 (Cx.mul ⟨0, 1 / (4 * pi)⟩ ⟨x, y⟩)))).im
+    simp only [Cx.mul, Cx.smul, Cx.add]
+    field_simp
+    ring
+
+open Smrt.Em in
+/-- the same for the exponential microstructure, end to end: correlation length `a ξ`, wavenumber `Q / a` -/
+theorem sce_A2_local_similarity_exponential (pi f xi a : ℝ) (Q : Cx ℝ) (ha : 0 < a) (hxi : xi ≠ 0) :
+    sceA2Local pi (fun i => expAcf f (a * xi) ((i : ℝ) * (8 * (a * xi) / 4096))) (expFt pi f (a * xi) 0) (a * xi) (Cx.smul (1 / a) Q)
+      = sceA2Local pi (fun i => expAcf f xi ((i : ℝ) * (8 * xi / 4096))) (expFt pi f xi 0) xi Q := by
+  have hg : (fun i : Nat => expAcf f (a * xi) ((i : ℝ) * (8 * (a * xi) / 4096))) = fun i : Nat => expAcf f xi ((i : ℝ) * (8 * xi / 4096)) := by
+    funext i
+    have := (exponential_similarity pi f xi 0 ((i : ℝ) * (8 * xi / 4096)) a ha hxi).2
+    rw [← this]; congr 1; ring
+  have hft : expFt pi f (a * xi) 0 = a ^ 3 * expFt pi f xi 0 := by
+    have := (exponential_similarity pi f xi 0 0 a ha hxi).1
+    simpa using this
+  rw [hg, hft]
+  exact sce_A2_local_similarity pi _ _ xi a Q (ne_of_gt ha)
 
 end micro
 
